@@ -28,6 +28,11 @@ FullReplies ==
        { ReportState(a, st) : a \in {Me, Other}, st \in States }
   \cup { AckOperation(a, op) : a \in {Me, Other}, op \in Operations }
   \cup { NoReply, Goodbye(Me), Unknown(MkFrame(Me, 9, <<1>>)), BusErr }
+  \* a bus may hand over an Unknown wrapper around any frame: an own-address state report with a code the table does not list, and
+  \* wrappers around the bytes of the very report / acknowledgement that would be welcome at that point (never to be unwrapped)
+  \cup { Unknown(MkFrame(Me, 4, <<14>>)), Unknown(MkFrame(Me, 4, <<StateCode["PixelsReceived"]>>)), Unknown(MkFrame(Me, 4, <<StateCode["ConfigReceived"]>>)),
+         Unknown(MkFrame(Me, 4, <<StateCode["PageLoaded"]>>)), Unknown(MkFrame(Me, 4, <<StateCode["PageShown"]>>)),
+         Unknown(MkFrame(Me, 4, <<StateCode["ConfigFailed"], 0>>)) }
 
 SmallReplies ==
        { ReportState(Me, st) : st \in {"Unconfigured", "ReadyToReset", "ConfigReceived", "ConfigFailed", "PixelsReceived",
